@@ -71,6 +71,15 @@ def run(chk):
             chk.ob("R15.2", "%s:no-boundary-reads" % name, C.S + "::boundaries" not in r and C.S + "::iter_tokens" not in r,
                    "the %s filter reads boundary contents (%s): its decision then depends on its own earlier output and f(f(s)) = f(s) is no longer structural" % (name, sorted(x for x in r if "boundar" in x or "iter_tokens" in x)), site=C.site(b))
             # direct writes to fields are impossible outside the crate (pub(crate)); unsafe ops are inventoried in C18
+        # "exactly their rule": the rule is applied by the filter's main loop over the sentence; a shortcut that returns before
+        # that loop (a fast path for some class of texts) applies no rule at all to those texts
+        cf_ = cfgmod.cfg_of(b)
+        loops_ = cf_.natural_loops()
+        outer_ = [h for h in loops_ if not any(h != g and loops_[h] < loops_[g] for g in loops_)]
+        rets_ = [bl["id"] for bl in b.blocks if not bl["cleanup"] and bl["term"] and bl["term"]["k"] == "return"]
+        okp = bool(outer_) and bool(rets_) and all(cf_.must_pass(0, {r_}, set(outer_)) for r_ in rets_)
+        chk.ob("R15.3", "%s:no-return-before-the-rule-loop" % name, okp,
+               "the %s filter can return without entering its loop over the sentence (loop headers %s): for such inputs the rule is not applied" % (name, sorted(outer_)), site=C.site(b))
     # API surface
     c = w.crates["vaporetto"]
     muts = sorted(p for p, f in c.fns.items() if p.startswith(C.S + "::") and f["vis"] == "pub" and "&mut" in f["output"])
